@@ -7,6 +7,9 @@ NOTE_COMMON = ('Trusted: Coq 8.16.1 kernel; no axioms (Print Assumptions of each
                'the hand-written Gallina model coq/Model/*.v is tied to /repo only by the differential correspondence run of this check (extracted OCaml model vs the crate rebuilt from the working tree, same case files); '
                'extraction with ExtrOcamlBasic only; CRCs, std I/O adapters, allocator and 64-bit usize are modelled, not verified. ')
 T = {
+ 'C17': ('Machine-checked theorems on the model of Lzma2Decoder::decompress, for every decoder state and accumulated history, every fragmentation of a fault-free reader and every short-writing sink: success implies that at EVERY chunk position reached the remaining input does not start with a malformed chunk (input ending where a control byte is expected, control byte 0x03-0x7F, truncated chunk header, uncompressed chunk shorter than declared, missing / >= 225 / lc+lp > 4 property byte, packed size below the five coder bytes); a compressed chunk is accepted only if its payload produced exactly the declared uncompressed size; reads beyond the declared compressed size hit the Take limit and fail. Tied to the crate by mutating each framing field of well-formed sequences at every chunk position.',
+         'Coq proof (decision rules + loop invariant over chunk positions) + differential correspondence on framing mutants',
+         'The clause "payload needs more input than its declared compressed size" is proved at the read / normalise / rc_new level (Take limit = EOF); the symbol-level statement that a well-formed payload cut short always reaches such a read follows from the lock-step theorem and is covered by the correspondence run.'),
  'C13': ('Machine-checked theorems on the model: for every input (valid or not), every fuel and option, any two fault-free sources over the same bytes - whatever their refill policies (buffer capacities, short-read patterns, partly consumed buffers, Take limits) - give the same verdict, the same sink contents and the same consumed count for lzma_decompress_with_options, lzma2_decompress and xz_decompress (relational proof through every layer: derived reads, range decoder, symbol decoder by handler refinement, process_mode / chunk / block loops by loop simulation). Tied to the crate by running every input under slice, Cursor, BufReader capacities and cyclic short-read readers.',
          'Coq proof (relational / handler-refinement argument over all source policies) + differential correspondence across reader kinds',
          'Known finding (known_findings.txt): after an Err inside an XZ block header the real reader position depends on the fragmentation, because read_block parses through a BufReader that reads ahead; the model abstracts that reader by its net effect (DESIGN.md section 4), so the theorem speaks about the model position.'),
